@@ -31,6 +31,8 @@ class CachingStreamWrapper(io.IOBase):
 
     def peek(self, n):
         result = self.read(n)
+        if result is None:  # non-blocking stream has no data yet
+            return result
         self._cache.seek(-len(result), os.SEEK_CUR)
         return result
 
@@ -49,6 +51,9 @@ class CachingStreamWrapper(io.IOBase):
                 return read_from_cache
 
         read_from_raw = self._raw.read(n)
+
+        if read_from_raw is None:  # non-blocking stream has no data yet
+            return read_from_cache or None
 
         self._cache.write(read_from_raw)
 
